@@ -1166,7 +1166,7 @@ fn all_cases(tier: &str, rng: &mut Rng) -> Vec<Case> {
 /// configuration.  Planted cases: small shifts always and the large ones for a deterministic sample
 /// in the default configuration, plus one other configuration per case (rotating) on a reduced
 /// grid.  Thorough: whole grid for fixed-site cases in every configuration; planted cases whole grid
-/// in the default and in one rotating configuration.
+/// in the default configuration and the reduced grid in one rotating configuration.
 fn variants(c: &Case, idx: usize, tier: &str) -> Vec<(&'static str, usize, usize)> {
     const REDUCED: &[(usize, usize)] = &[(0, 0), (1, 0), (3, 2), (4, 1), (5, 0), (0, 3), (6, 1)];
     // (not `t`: with lstrip_blocks text inserted in front of a block tag changes what the tag strips,
@@ -1190,7 +1190,7 @@ fn variants(c: &Case, idx: usize, tier: &str) -> Vec<(&'static str, usize, usize
                 let big = V_SHIFTS[vi].0 > 1000 || H_SHIFTS[hi] == "L";
                 let small_sample = vi <= 1 || (vi == 3 && hi == 2) || (vi == 2 && hi == 1);
                 let keep = if tier == "thorough" {
-                    true
+                    c.class != "planted" || cfg == "d" || REDUCED.contains(&(vi, hi))
                 } else if c.class != "planted" {
                     cfg == "d" || (is_print && matches!(cfg, "p" | "n" | "a")) || REDUCED.contains(&(vi, hi))
                 } else if cfg != "d" {
